@@ -15,7 +15,9 @@ driver_of() {
     C01|C09|C12|C16) echo api ;;
     C02) echo verify ;;
     C08) echo stream ;;
-    C03|C10) echo decode ;;
+    C03|C10|C05) echo decode ;;
+    C04) echo writer ;;
+    C13|C14) echo text ;;
     *) echo "" ;;
   esac
 }
